@@ -294,6 +294,18 @@ example : split 1 [3, 2, 2, 4] 2 = ([[3], [3], [5], [], [], [], [], [], [], [], 
   decide +kernel
 example : split 5 [3, 2, 2, 4, 1, 1, 1] 0 = ([[3, 3], [5]], [2, 2, 2]) := by decide +kernel
 
+/-- **Every part gets its own initialiser**: in a split unit the elements after the header
+define pairwise different `INIT__k` functions. -/
+theorem init_distinct (l i j : Nat) (hi : 0 < i) (hj : 0 < j) (hij : i ≠ j) :
+    initIndex true l i ≠ initIndex true l j ∧ (initIndex true l i).isSome := by
+  unfold initIndex
+  have h1 : ¬ i = 0 := by omega
+  have h2 : ¬ j = 0 := by omega
+  simp only [if_true, h1, h2, if_false]
+  constructor
+  · split <;> split <;> simp <;> omega
+  · split <;> simp
+
 /-- full-strength statement: all `.c` files of one unit have different names -/
 def split_names_distinct_statement : Prop :=
   ∀ (base : List Char) (nparts : Nat), (partFiles base nparts).Nodup
